@@ -262,13 +262,33 @@ def _neighbours_semantic(col, crate, fn, table, b, fk):
         col.violation("I5", key, b.loc(), "%s keeps an offset under %s; the in-bounds test must be exactly 0 <= i+dx < n and 0 <= j+dy < m (rows against n, columns against m)" % (fn, [sorted(c) for c in conds]))
     key = "%s|yields" % fk(b)
     okm = bool(outs)
-    for _, el in outs:
+    for (fs_, el), cs_ in zip(outs, conds):
+        if el[0] == "agg" and el[1] == "tuple":
+            # isize::unsigned_abs of a value the filter has shown non-negative is the value itself
+            def _abs_as_cast(x):
+                a_ = [y for y in x[2] if not (isinstance(y, tuple) and y and y[0] == "mem")] if x[0] == "call" and str(x[1]).endswith("<impl isize>::unsigned_abs") else []
+                return ("cast", "IntToInt", "usize", a_[0], "isize") if len(a_) == 1 and (_psym(a_[0]), ">=0") in cs_ else x
+            el = (el[0], el[1], tuple(_abs_as_cast(x) for x in el[2]))
         okm = okm and el[0] == "agg" and el[1] == "tuple" and len(el[2]) == 2 and [_psym(x) for x in el[2]] == ["dx+i", "dy+j"] and all(x[0] == "cast" and x[2] == "usize" for x in el[2])
     if okm:
         col.ok("I5", b.loc(), key, "((i+dx) as usize, (j+dy) as usize)")
     else:
         col.violation("I5", key, b.loc(), "%s must yield (i+dx, j+dy): yields %s" % (fn, [tstr(el)[:120] for _, el in outs]))
     return True
+
+
+TR = ["IterMasks"]          # the crate's (unexported) stepping trait, bound by role in check()
+PI = ["PermutationIter"]    # the crate's permutation iterator type, bound by role in check()
+
+
+def _bind_names(crate):
+    """the trait is the crate's own trait implemented for primitive integers; the iterator type the crate's own type
+    that implements Iterator - whatever they are called today"""
+    tr = sorted(set(str(i.get("trait")) for i in crate.impls if i.get("trait") and str(i.get("self_ty")) in INTS and not str(i.get("trait")).startswith(("std::", "core::", "alloc::"))))
+    TR[0] = tr[0].rsplit("::", 1)[-1] if len(tr) == 1 else "IterMasks"
+    its = sorted(set(str(i.get("self_adt")) for i in crate.impls if str(i.get("trait") or "").startswith(("std::iter::Iterator", "core::iter::Iterator")) and i.get("self_adt")))
+    ads = [a for a in crate.adts if str(a.get("key")) in its]
+    PI[0] = str(ads[0].get("path") or ads[0].get("name")).rsplit("::", 1)[-1] if len(ads) == 1 else "PermutationIter"
 
 
 def _mask_roles(crate):
@@ -288,7 +308,7 @@ def _mask_roles(crate):
             work.extend(crate.closures_of(x))
             for _bb, t in x.calls():
                 f = t["fn"]
-                if str(f.get("trait") or "").endswith("IterMasks"):
+                if str(f.get("trait") or "").endswith(TR[0]):
                     (step if len(t["args"]) == 2 else sent if len(t["args"]) == 0 else set()).add(f.get("name"))
                 tgt = crate.by_key.get(util.callee_key(t))
                 if tgt is not None and not tgt.is_closure and tgt.container is None and tgt.key not in seen:
@@ -320,7 +340,7 @@ def _chain_semantic(crate, b, sent, stepper):
         a0, a1 = ch[0].args
 
         def is_sent(v):
-            return isinstance(v, tuple) and v and v[0] == "call" and str(v[1]).endswith("IterMasks::" + sent) and not [y for y in v[2] if not (isinstance(y, tuple) and y and y[0] == "mem")]
+            return isinstance(v, tuple) and v and v[0] == "call" and str(v[1]).endswith(TR[0] + "::" + sent) and not [y for y in v[2] if not (isinstance(y, tuple) and y and y[0] == "mem")]
 
         tail = (a1[0] == "agg" and a1[1] == "array" and len(a1[2]) == 1 and is_sent(a1[2][0])) or (a1[0] == "call" and str(a1[1]).endswith("iter::once") and a1[2] and is_sent(a1[2][0])) or (a1[0] == "agg" and isinstance(a1[1], tuple) and a1[1][3] == "Some" and is_sent(a1[2][0]))
         if not tail or not (a0[0] == "call" and str(a0[1]).endswith("from_fn") and a0[2]):
@@ -334,7 +354,7 @@ def _chain_semantic(crate, b, sent, stepper):
         n0 = len(evs)
         for ns, res in outs:
             calls = [e for e in ns.event_list() if e.kind == "call"][n0:]
-            steps = [e for e in calls if e.extra.get("name") == stepper and str(e.extra.get("trait") or "").endswith("IterMasks")]
+            steps = [e for e in calls if e.extra.get("name") == stepper and str(e.extra.get("trait") or "").endswith(TR[0])]
             others = [e for e in calls if e not in steps and not e.extra.get("inlined") and not e.extra.get("pure")]
             if len(steps) != 1 or others or res != steps[0].res:
                 return False
@@ -373,8 +393,9 @@ def check(col, prog, tier, profile, fixture=None):
     col.rule("I6", "iter_permutations sorts first; iterator yields data first then steps until false", floor=4)
     col.rule("I7", "next_permutation anatomy: rightmost ascent, LAST tail element greater than the pivot, swap, reverse tail; wrap = reverse all, false", floor=4)
 
+    _bind_names(crate)
     # ---------------- I1
-    tys = sorted(i["self_ty"] for i in crate.impls if (i.get("trait") or "").endswith("IterMasks"))
+    tys = sorted(i["self_ty"] for i in crate.impls if (i.get("trait") or "").endswith(TR[0]))
     if tys == sorted(INTS):
         col.ok("I1", "rlib/iter/src/masks.rs", "IterMasks|12-types", "implemented for %s" % ", ".join(tys))
     else:
@@ -387,14 +408,14 @@ def check(col, prog, tier, profile, fixture=None):
         if ty not in tys:
             continue
         for nm, nm_ in (("next_submask", MR["iter_submasks"][0]), ("next_supermask", MR["iter_supermasks"][0])):
-            b = util.need_body(crate, "<%s as masks::IterMasks>::%s" % (ty, nm_))
+            b = util.need_body(crate, "<%s as masks::%s>::%s" % (ty, TR[0], nm_))
             asserts = [blk["term"]["msg"]["k"] for blk in b.blocks if not blk["cleanup"] and blk["term"]["k"] == "assert"]
             key = "%s|no-overflow-assert" % fk(b)
             if not [a for a in asserts if a.startswith("overflow")]:
                 col.ok("I2", b.loc(), key, "no overflow assertion: minimum / all-ones cannot panic", nontrivial=False)
             else:
                 col.violation("I2", key, b.loc(), "%s contains a checked arithmetic operation: it panics in debug builds at the signed minimum / all-ones" % b.path)
-            consts_ = [c_ for c_ in crate.bodies if not c_.is_closure and c_.name in (ZERO_N, ONES_N) and c_.path.startswith("<%s as masks::IterMasks>" % ty)]
+            consts_ = [c_ for c_ in crate.bodies if not c_.is_closure and c_.name in (ZERO_N, ONES_N) and (c_.path.startswith("<%s as " % ty) and c_.path.rsplit(">::", 1)[0].endswith("::" + TR[0]))]
             free_ = [f_ for f_ in crate.bodies if not f_.is_closure and f_.kind == "Fn" and f_.container is None and f_.vis != "pub" and not util.self_recursive(f_)]
             I = util.analyser(consts_ + free_, features=("fncall", "comb"))(b)
             selfp = ("deref", ("param", 1, I.names.get(1)))
@@ -469,7 +490,7 @@ def check(col, prog, tier, profile, fixture=None):
                             if len(a_) == 2 and old in a_ and equal:
                                 k_ = a_[1] if a_[0] == old else a_[0]
                                 term_nm = ZERO_N if nm == "next_submask" else ONES_N
-                                is_term = (isinstance(k_, tuple) and k_ and k_[0] == "call" and str(k_[1]).endswith("IterMasks>::%s" % term_nm) and ("<%s as " % ty) in str(k_[1])) or (nm == "next_submask" and k_ == mk_int(0)) or (nm != "next_submask" and all_ones(k_))
+                                is_term = (isinstance(k_, tuple) and k_ and k_[0] == "call" and str(k_[1]).endswith("%s>::%s" % (TR[0], term_nm)) and ("<%s as " % ty) in str(k_[1])) or (nm == "next_submask" and k_ == mk_int(0)) or (nm != "next_submask" and all_ones(k_))
                                 okn = okn or bool(is_term)
                 if r[0] == "agg" and r[1][3] == "None":
                     v_none.append(bool(okn))
@@ -479,8 +500,8 @@ def check(col, prog, tier, profile, fixture=None):
                 col.ok("I3", b.loc(), key, "None at the terminal mask; else step and return the previous value")
             else:
                 col.violation("I3", key, b.loc(), "%s is not the documented stepper (%s)" % (b.path, why or "termination test or step differs"))
-        zb = util.need_body(crate, "<%s as masks::IterMasks>::%s" % (ty, ZERO_N))
-        ob = util.need_body(crate, "<%s as masks::IterMasks>::%s" % (ty, ONES_N))
+        zb = util.need_body(crate, "<%s as masks::%s>::%s" % (ty, TR[0], ZERO_N))
+        ob = util.need_body(crate, "<%s as masks::%s>::%s" % (ty, TR[0], ONES_N))
         Iz, Io = util.analyse(zb), util.analyse(ob)
         okz = all(util.ret_term(st) == mk_int(0) for st in Iz.final_states)
         bits = {"8": 1, "16": 2, "32": 4, "64": 8, "128": 16, "size": 8}[ty[1:]]
@@ -493,6 +514,12 @@ def check(col, prog, tier, profile, fixture=None):
                 oko = True
             if r[0] == "un" and r[1] == "Not" and r[2] == mk_int(0):
                 oko = True
+            if r[0] == "call" and str(r[1]).endswith("from_le_bytes") and r[2] and r[2][0][0] in ("assoc", "cst"):
+                # a named constant as the byte pattern (`const FULL: [u8; BYTES] = [0xff; BYTES]`): by its evaluated bytes
+                cpath = str(r[2][0][1])
+                for k_ in getattr(crate, "consts", []):
+                    if k_.get("path") == cpath and k_.get("bytes") == [255] * bits:
+                        oko = True
         key = "%s|sentinels" % ty
         if okz and oko:
             col.ok("I3", zb.loc(), key, "zero() = 0, ones() = %d bytes of 0xff" % bits, nontrivial=False)
@@ -512,9 +539,9 @@ def check(col, prog, tier, profile, fixture=None):
             if ch:
                 a0, a1 = ch[0].args
                 # the tail yields exactly the sentinel once: [sent()] or iter::once(sent()) / Some(sent())
-                tail_arr = a1[0] == "agg" and a1[1] == "array" and len(a1[2]) == 1 and a1[2][0][0] == "call" and str(a1[2][0][1]).endswith("IterMasks::" + sent)
-                tail_once = a1[0] == "call" and str(a1[1]).endswith("iter::once") and a1[2] and a1[2][0][0] == "call" and str(a1[2][0][1]).endswith("IterMasks::" + sent)
-                tail_some = a1[0] == "agg" and isinstance(a1[1], tuple) and a1[1][3] == "Some" and a1[2][0][0] == "call" and str(a1[2][0][1]).endswith("IterMasks::" + sent)
+                tail_arr = a1[0] == "agg" and a1[1] == "array" and len(a1[2]) == 1 and a1[2][0][0] == "call" and str(a1[2][0][1]).endswith(TR[0] + "::" + sent)
+                tail_once = a1[0] == "call" and str(a1[1]).endswith("iter::once") and a1[2] and a1[2][0][0] == "call" and str(a1[2][0][1]).endswith(TR[0] + "::" + sent)
+                tail_some = a1[0] == "agg" and isinstance(a1[1], tuple) and a1[1][3] == "Some" and a1[2][0][0] == "call" and str(a1[2][0][1]).endswith(TR[0] + "::" + sent)
                 ok = a0[0] == "call" and str(a0[1]).endswith("from_fn") and (tail_arr or tail_once or tail_some) and r == ch[0].res
                 cl = crate.closures_of(b)
                 ok = ok and len(cl) == 1 and any(t["fn"].get("name") == stepper for bb, t in cl[0].calls())
@@ -697,7 +724,7 @@ def check(col, prog, tier, profile, fixture=None):
     DATA_NAME = ["data"]
     b = util.need_body(crate, "permutations::iter_permutations")
     # constructors of the iterator type (PermutationIter::new(data)) and private helpers are inlined
-    ctor_helpers = [m for m in crate.bodies if not m.is_closure and m.kind in ("Fn", "AssocFn") and not util.self_recursive(m) and m.key != b.key and (m.vis != "pub" or ("PermutationIter" in m.path and not str((crate.impl_of(m) or {}).get("trait") or "").endswith("Iterator")))]
+    ctor_helpers = [m for m in crate.bodies if not m.is_closure and m.kind in ("Fn", "AssocFn") and not util.self_recursive(m) and m.key != b.key and (m.vis != "pub" or (PI[0] in m.path and not str((crate.impl_of(m) or {}).get("trait") or "").endswith("Iterator")))]
     I = util.analyser(ctor_helpers, features=("comb", "fncall"))(b)
     for st in I.final_states:
         evs = st.event_list()
@@ -706,7 +733,7 @@ def check(col, prog, tier, profile, fixture=None):
         # nothing to order for fewer than two elements: the sort may be skipped under a fact len <= 1
         tiny = any(f[0] == "eq" and isinstance(f[1], tuple) and f[1] and f[1][0] == "bin" and isinstance(f[1][2], tuple) and f[1][2] and f[1][2][0] == "len" and isinstance(f[1][3], tuple) and f[1][3][0] == "int"
                    and ((f[1][1] == "Gt" and f[1][3][1] <= 1 and f[2] == 0) or (f[1][1] == "Ge" and f[1][3][1] <= 2 and f[2] == 0) or (f[1][1] == "Lt" and f[1][3][1] <= 2 and f[2] == 1) or (f[1][1] == "Le" and f[1][3][1] <= 1 and f[2] == 1)) for f in st.facts)
-        ok = (bool(srt) or tiny) and r[0] == "agg" and isinstance(r[1], tuple) and r[1][0] == "adt" and r[1][1].endswith("PermutationIter")
+        ok = (bool(srt) or tiny) and r[0] == "agg" and isinstance(r[1], tuple) and r[1][0] == "adt" and r[1][1].endswith(PI[0])
         if ok:
             flds = dict(zip(r[1][4], r[2]))
             flagn = [k_ for k_, v_ in flds.items() if v_ in (mk_int(0), mk_int(1))]
@@ -723,10 +750,12 @@ def check(col, prog, tier, profile, fixture=None):
         else:
             col.violation("I6", key, b.loc(), "iter_permutations must sort the data before constructing the iterator in its not-yet-started state: otherwise arrangements before the input's are skipped")
     _next_permutation_anatomy(col, crate)
-    nb = util.need_body(crate, "<permutations::PermutationIter<T> as std::iter::Iterator>::next")
+    _adt = util.need_adt(crate, PI[0])
+    _nbs = [m for m in crate.bodies if not m.is_closure and m.name == "next" and (crate.impl_of(m) or {}).get("self_adt") == _adt["key"] and str((crate.impl_of(m) or {}).get("trait") or "").endswith("iter::Iterator")]
+    nb = _nbs[0] if len(_nbs) == 1 else util.need_body(crate, "<permutations::PermutationIter<T> as std::iter::Iterator>::next")
     npb = util.need_body(crate, "permutations::next_permutation")
     I = util.analyse(nb, features=("comb", "fncall"))  # `cond.then(|| ..)` / Option combinators are case splits
-    adt = util.need_adt(crate, "PermutationIter")
+    adt = util.need_adt(crate, PI[0])
     fn_ = [f["name"] for f in util.fields_of(adt)]
     if FLAG0[0][0] not in fn_ or DATA_NAME[0] not in fn_:
         raise Anchor("PermutationIter: cannot identify the started-flag and the element storage among the fields %s" % fn_)
